@@ -121,6 +121,8 @@ enum Kind {
 }
 `,
 	"proto/acme/v1/sub/c.proto": "syntax = \"proto3\";\npackage acme.v1.sub;\n// C is documented.\nmessage C { string id = 1; }\n",
+	// a sibling directory whose name starts with the name of a selected one: a path selects component-wise
+	"proto/acme/v1beta1/d.proto": "syntax = \"proto3\";\npackage acme.v1beta1;\n// D is documented.\nmessage D { string id = 1; }\n",
 	"proto/acme/v2/b.proto": `syntax = "proto2";
 package acme.v2;
 import "acme/v1/a.proto";
